@@ -3,7 +3,7 @@ import shapecheck
 
 PROP = 'C03'
 VARIANTS = ['asan-direct']
-RULE = ('Generators: (a) fz_shape libFuzzer campaign (16 forked workers, table-aware mutator) over synthesised + minified shipped fonts, header bytes select face options/table source/encoding/dir 0..7/ppm/features/language/NUL-termination, text drawn from the face\'s own mapped code points plus unmapped, astral and ill-formed units; (b) Hypothesis "wild" GDL-lite programs (backward cursor, insert-heavy, attach chains and re-attachment, put_copy/assoc in positioning passes, division, arbitrary slot attributes, reversed passes, NSM/mirror/pseudo glyphs, justification levels) x 1-4 probes; (c) shipped fonts x cmap-guided texts x 3 encodings x dir 0..7. Oracle (seginv.h, public API only): next-walk from first visits exactly n_slots distinct slots and ends at last; prev is the inverse; slot indices are a permutation of 0..n-1; origins, advances and segment advance finite; gid < n_glyphs on shipped fonts (class-closed). Non-trivial: slot count changed, stream reordered, or >=1 rule fired. Distinct by input hash / case JSON.')
+RULE = ('Generators: (a) fz_shape libFuzzer campaign (16 forked workers, table-aware mutator) over synthesised + minified shipped fonts, header bytes select face options/table source/encoding/dir 0..7/ppm/features/language/NUL-termination, text drawn from the face\'s own mapped code points plus unmapped, astral and ill-formed units; (b) Hypothesis "wild" GDL-lite programs (backward cursor, insert-heavy, attach chains and re-attachment, put_copy/assoc in positioning passes, substitution through arbitrary class pairs, division, arbitrary slot attributes, reversed passes, NSM/mirror/pseudo glyphs, unreadable glyphs, linear and bisected class tables, justification levels, line-end contextuals; for C04 half of them attachment-stress programs over a 3-4 glyph alphabet) x 1-4 probes; (c) shipped fonts x cmap-guided texts (1 in 4 with raw ill-formed code-unit fragments) x 3 encodings x dir 0..7 x font NULL / unhinted / hinted. Oracle (seginv.h, public API only): next-walk from first visits exactly n_slots distinct slots and ends at last; prev is the inverse; slot indices are a permutation of 0..n-1; origins, advances and segment advance finite; gid < n_glyphs on shipped fonts (class-closed). Non-trivial: slot count changed, stream reordered, or >=1 rule fired. Distinct by input hash / case JSON.')
 ASSUME = ['glyph-id clause only on shipped fonts (fuzzed/wild fonts may name non-existent glyphs in classes, excluded by the property)']
 
 
